@@ -1053,7 +1053,7 @@ func (g *gen) callEffects(c *ssa.CallCommon, ef *effects) {
 		}
 		if unknownFrame(con) {
 			ef.all = true
-			ef.unknown = append(ef.unknown, con.Keeps)
+			ef.unknown = append(ef.unknown, con)
 		}
 		for _, m := range con.Modifies {
 			for _, h := range g.modHeapNames(m, callee) {
@@ -1402,14 +1402,14 @@ func (g *gen) keptHeaps(instr ssa.Instruction, con *Contract, cname string) (fun
 		}
 		switch {
 		case strings.HasPrefix(k, "nonnil:var."):
-			h := "G.yqlib." + strings.TrimPrefix(k, "nonnil:var.")
+			h := globalHeapOf(con, strings.TrimPrefix(k, "nonnil:var."))
 			if g.heapSorts[h] != "" {
 				stays = append(stays, h)
 			}
 		case k == "list.*":
 			exact = append(exact, listLenHeap, listValHeap)
 		case strings.HasPrefix(k, "var."):
-			exact = append(exact, "G.yqlib."+strings.TrimPrefix(k, "var."))
+			exact = append(exact, globalHeapOf(con, strings.TrimPrefix(k, "var.")))
 		case strings.HasSuffix(k, ".*"):
 			prefixes = append(prefixes, "H.yqlib."+strings.TrimSuffix(k, "*"))
 		default:
@@ -1429,4 +1429,17 @@ func (g *gen) keptHeaps(instr ssa.Instruction, con *Contract, cname string) (fun
 		}
 		return false
 	}, stays
+}
+
+// globalHeapOf: the heap variable of package-level variable name as written in a keeps clause of con:
+// "name" is a variable of the package whose contract file holds con, "pkg.name" one of another yq package.
+func globalHeapOf(con *Contract, name string) string {
+	if i := strings.Index(name, "."); i >= 0 {
+		return "G." + sanitize(name)
+	}
+	pkg := con.Pkg
+	if i := strings.LastIndex(pkg, "/"); i >= 0 {
+		pkg = pkg[i+1:]
+	}
+	return "G." + sanitize(pkg+"."+name)
 }
